@@ -4911,7 +4911,9 @@ def _form_to_layout(
                 lazy_cache_key, node_cache_key, _from_buffers_key()
             )
 
-        return ak.layout.VirtualArray(generator, lazy_cache, nested_cache_key)
+        return ak.layout.VirtualArray(
+            generator, lazy_cache, nested_cache_key, identities, parameters
+        )
 
     else:
         raise AssertionError(
